@@ -135,12 +135,7 @@ func (w *World) quotaOnAssign(e *cENI, n, alreadyThere int, v6 bool) {
 // ---- settle phase: C03 liveness, C08 convergence and conservation
 
 func (w *World) reconcileOnce() {
-	w.passStartUID = map[string]string{}
-	for _, p := range w.pods {
-		if p.exists {
-			w.passStartUID[p.spec.Name] = p.uid
-		}
-	}
+	w.snapshotPassStart()
 	_, _ = w.ctl.Reconcile(context.Background(), reconcile.Request{NamespacedName: types.NamespacedName{Name: nodeName}})
 }
 
